@@ -96,7 +96,7 @@ def run(ctx):
     model = c.run_driver(ops)
     c.diff_streams(ctx, "L3-inter", ops, impl, model)
     # the regenerated functions themselves, run by the driver on the same tuples (validates the function translator)
-    modelx = c.run_driver(["interx " + spec_of(t) for t in tuples])
+    modelx = c.run_driver_x(ctx, "svx_utils", ["interx " + spec_of(t) for t in tuples])
     nx = c.diff_streams(ctx, "L3-inter-regenerated", ops, impl, modelx)
     ctx.cov["streams"]["L3-inter-regenerated"] = {"evaluations": len(ops), "distinct_nontrivial": 0, "disagreements": nx,
                                                   "what": "Extracted.Utils.assert_no_intersection (regenerated from source) vs the real const fn"}
